@@ -599,9 +599,8 @@ int
 tun_setip(const char *ip, const char *other_ip, int netbits)
 {
 	char cmdline[512];
-	int netmask;
+	uint32_t netmask;
 	struct in_addr net;
-	int i;
 #ifndef LINUX
 	int r;
 #endif
@@ -617,11 +616,11 @@ tun_setip(const char *ip, const char *other_ip, int netbits)
 #endif
 #endif
 
-	netmask = 0;
-	for (i = 0; i < netbits; i++) {
-		netmask = (netmask << 1) | 1;
+	if (netbits < 0 || netbits > 32) {
+		fprintf(stderr, "Invalid netmask: /%d!\n", netbits);
+		return 1;
 	}
-	netmask <<= (32 - netbits);
+	netmask = netbits ? 0xffffffffU << (32 - netbits) : 0;
 	net.s_addr = htonl(netmask);
 
 	if (inet_addr(ip) == INADDR_NONE) {
